@@ -491,6 +491,54 @@ func runC02(r *Run) {
 	})
 
 	// R4 ------------------------------------------------------------------------------
+	r.rule("R5", "a parameter is optional by its own marker only: what analyseParameterPart stores as routeSegment.IsOptional is (apart from the wildcard case) the comparison of the pattern byte at the parameter's end position with '?' — not the outcome of a search through text that includes the constraint data, where a `?` is a regex quantifier (an optional parameter that is empty skips every constraint) (E8)", func() {
+		f := r.Fn("", "(*routeParser).analyseParameterPart")
+		n := 0
+		for _, fr := range fieldRefs(f) {
+			if !fr.Write || fr.Name != "routeSegment.IsOptional" || fr.Val == nil {
+				continue
+			}
+			n++
+			var leaves []ssa.Value
+			seen := map[ssa.Value]bool{}
+			var walk func(v ssa.Value)
+			walk = func(v ssa.Value) {
+				if v == nil || seen[v] {
+					return
+				}
+				seen[v] = true
+				if ph, ok := v.(*ssa.Phi); ok {
+					for _, e := range ph.Edges {
+						walk(e)
+					}
+					return
+				}
+				if _, ok := v.(*ssa.Const); ok {
+					return
+				}
+				leaves = append(leaves, v)
+			}
+			walk(fr.Val)
+			ok, why := len(leaves) > 0, ""
+			for _, lf := range leaves {
+				ci := decompose(lf)
+				_, isC := constInt(ci.Const)
+				// (a comparison of another pattern byte with a fixed character — the wildcard marker `pattern[0] == '*'` —
+				// is of the same kind)
+				_, isElem := stripValue(ci.Root).(*ssa.Index)
+				if ld, isLd := stripValue(ci.Root).(*ssa.UnOp); isLd && ld.Op == token.MUL {
+					_, isElem = ld.X.(*ssa.IndexAddr)
+				}
+				if !(isC && (ci.Op == token.EQL || ci.Op == token.NEQ) && isElem) {
+					ok, why = false, r.pos(fr.Instr)
+				}
+			}
+			r.check(ok, fmt.Sprintf("analyseParameterPart:IsOptional#%d:by-the-marker-at-the-end", n), r.pos(fr.Instr), "IsOptional is the wildcard test or `pattern[end] == '?'`",
+				"IsOptional is decided by something else than the byte at the parameter's end ("+why+"): a `?` inside constraint data — /item/:code<regex(^ab?c$)> — makes the parameter optional, and an empty optional value skips its constraints: /item and /item/ are answered by a handler whose pattern demands a code")
+		}
+		r.atLeast("stores of routeSegment.IsOptional in analyseParameterPart", n, 1)
+	})
+
 	r.rule("R4", "required parameters are non-empty; last non-greedy parameter stops at '/'; non-greedy multi-byte search refuses a '/' before the delimiter (E1)", func() {
 		withoutHelpers(func() { // attribution rule: each construct belongs to the one function that contains it
 			f := gm
@@ -732,7 +780,7 @@ func armFacts(f *ssa.Function, arm edge) (canReject bool, maxIdx int64) {
 // strings.Cut (found flag, position = len(before)).
 type byteSearch struct {
 	call     callSite
-	notFound []edge                  // edges taken when the byte is absent
+	notFound []edge                 // edges taken when the byte is absent
 	isPos    func(v ssa.Value) bool // v is the position of the first occurrence
 }
 
